@@ -67,6 +67,11 @@ func genTemplateN(c *Ctx, np int) tmpl {
 		func() string { return "print(" + u() + ")" },
 		func() string { return u() + "(" + u() + ")" }, // unquote in callee position
 		func() string { return "for 2 {" + u() + "}" },
+		// the same argument as two (three) keys of one map literal, values with visible effects (fix 4ad1aa4: Modify keyed both
+		// pairs by the one substituted node), and unquotes in key and value position
+		func() string { p := u(); return "{" + p + ": print(1), " + p + ": print(2)}" },
+		func() string { p := u(); return "[{" + p + ": print(1), " + p + ": print(2), " + p + ": print(3)}]" },
+		func() string { return "{" + u() + ": " + u() + ", " + u() + ": " + u() + "}" },
 	}
 	return tmpl{ps, forms[c.R.Intn(len(forms))]()}
 }
